@@ -14,8 +14,9 @@ from lib.bench.kernel import EdgeScheduler
 
 
 class RandomEdges(EdgeScheduler):
-    def __init__(self, domains, rng, probs=None, max_gap=12, ratio=None):
+    def __init__(self, domains, rng, probs=None, max_gap=12, ratio=None, aliases=None):
         self.rng = rng
+        self.aliases = aliases or {}          # derived clock domains that tick together with a base domain
         self.probs = probs or {d: rng.choice([0.2, 0.5, 0.5, 0.8, 1.0]) for d in domains}
         self.max_gap, self.ratio = max_gap, ratio
         self.since = {d: 0 for d in domains}
@@ -55,10 +56,12 @@ class RandomEdges(EdgeScheduler):
 
     def tick(self):
         dt, rising, falling = EdgeScheduler.tick(self)
-        if rising:
-            self.current = set(rising)
-        else:
-            self.current = set()
+        for base, others in self.aliases.items():
+            if base in rising:
+                rising |= set(others)
+            if base in falling:
+                falling |= set(others)
+        self.current = set(rising)
         return dt, rising, falling
 
 
